@@ -228,6 +228,7 @@ func (tr *Tr) sliceAll(o *Obligation) []*Term {
 }
 
 type solveOpts struct {
+	budgetS   int // wall-clock budget per function (seconds); obligations not started by then are reported as timeout
 	timeoutMs int
 	dumpDir   string
 	first     int // ms for the first, single-solver attempt
@@ -600,6 +601,11 @@ func dischargeAll(res *FnResult, opt solveOpts, sem chan struct{}) {
 		}
 		scripts[i] = res.tr.prepare(o, opt, nil)
 	}
+	budget := opt.budgetS
+	if budget <= 0 {
+		budget = 240
+	}
+	deadline := start.Add(time.Duration(budget) * time.Second)
 	for i, o := range res.Obls {
 		if o.Result != "" {
 			continue
@@ -609,6 +615,11 @@ func dischargeAll(res *FnResult, opt solveOpts, sem chan struct{}) {
 		go func(o *Obligation, sc *prepared) {
 			defer wg.Done()
 			defer func() { <-sem }()
+			if time.Now().After(deadline) {
+				o.Result = "timeout"
+				o.Output = "per-function time budget exceeded before this obligation was started"
+				return
+			}
 			discharge(o, sc, opt)
 		}(o, scripts[i])
 	}
